@@ -33,7 +33,7 @@ EXOTIC = ["", " ", "Document", "système", "\U0001F600", "0", "None", "document 
 def _cost(rule_name, tier):
     c = 2
     for a, spec in emlkit.rules_table()[rule_name][0].items():
-        c *= 1 + len(spec[1:]) + 1 + (3 if len(spec) > 1 else 0) + (len(EXOTIC) if tier == "thorough" else 0)
+        c *= 1 + len(spec[1:]) + 1 + (3 if len(spec) > 1 else 0) + (len(EXOTIC) if tier == "thorough" else 0)  # x2.33 for foreign variants
     return c
 
 
@@ -248,8 +248,10 @@ def run_rule(ctx, rule_name, part=0, parts=1):
         if ci % parts != part:
             continue
         base = [(a, v) for a, v in combo if v is not ABSENT]
-        for foreign in (False, True):
-            assignment = base + ([(FOREIGN_ATTR, "x")] if foreign else [])
+        for foreign in (False, True, "colon"):
+            assignment = base + ([(FOREIGN_ATTR, "x")] if foreign is True else [("xml:lang", "en")] if foreign == "colon" and "xml:lang" not in table else [])
+            if foreign == "colon" and ci % 3:
+                continue
             orders = [assignment]
             if ctx.tier == "thorough" and len(assignment) > 1:
                 if len(assignment) <= 4:
